@@ -13,6 +13,7 @@ strutils._SANITIZE_KEYS must be noticed.
 
 import os
 
+from vcheck import argtypes
 from vcheck import core
 from vcheck.core import Task, Violation
 
@@ -21,6 +22,8 @@ LEVEL = 'exploration'
 BUDGET = {'quick': 45, 'thorough': 420}
 # deterministic sub-checks repeated in a `python -O` child (core.optimized_child)
 OPT_SUBS = ('probe', 'pairs')
+# sub-checks repeated with str / int arguments as subclass instances
+SUBCLASS_SUBS = ('probe', 'pairs#2', 'many')
 # documented call interface the generated calls rely on (vcheck/callstyle.py)
 INTERFACE = [('oslo_utils.strutils', ['mask_password'])]
 # pairs of sampled cases are run against each other under every single
@@ -212,9 +215,10 @@ def findings_of(case):
 
 
 def call_mask(strutils, message, mask):
+    message = argtypes.maybe(message)
     if mask is None:
         return strutils.mask_password(message)
-    return strutils.mask_password(message, mask)
+    return strutils.mask_password(message, argtypes.maybe(mask))
 
 
 def check_message(case, sub):
